@@ -53,6 +53,8 @@ def check(rng, deep):
     fixtures = [('sim', m.sim, m.SIM_CALIB, [{'r': 0.003 * nr.normal(size=T)}, {'w': 0.02 * 0.7 ** np.arange(T), 'beta': -0.002 * np.ones(T)}, {'rho_e': np.r_[0, 0, 0.01, 0, 0, 0.0], 'sd_e': 0.01 * np.ones(T)}]),
                 ('labor', m.labor, m.LAB_CALIB, [{'r': 0.002 * nr.normal(size=T), 'Div': 0.01 * np.ones(T)}, {'vphi': 0.02 * 0.5 ** np.arange(T)}]),
                 ('twoasset', m.twoasset, m.TWO_CALIB, [{'rb': 0.002 * nr.normal(size=T)}, {'ra': 0.002 * np.ones(T), 'tax': np.r_[0.0, 0.01, np.zeros(T - 2)]}])]
+    # a borrowing limit that is loosened below the bottom of the grid (policies leave the grid at the bottom: the lottery extrapolates) and tightened above it
+    fixtures.append(('loose', m.loose, m.LOOSE_CALIB, [{'blim': np.r_[0.0, -0.3, -0.3, -0.1, 0.0, 0.0]}, {'blim': np.r_[0.0, 0.2, 0.0, 0.0, 0.0, 0.0], 'r': 0.002 * np.ones(T)}]))
     sss = {}
     for name, blk, calib, shock_list in fixtures:
         ss = blk.steady_state(calib)
@@ -95,7 +97,7 @@ def oracle(ctx, hints, broken):
         import traceback
         viol, n = [dict(what=f'C09 oracle raised {type(ex).__name__}: {ex}', input=dict(kind='raise', trace=traceback.format_exc()[-800:]), signature=dict(op='raise'))], 1
     return dict(evaluations=n, violations=viol,
-                rule='one-asset, endogenous-labour and two-asset shipped households (small grids), shocks to prices, preferences, Markov-process parameters, a directly '
+                rule='one-asset, endogenous-labour and two-asset shipped households (small grids), shocks to prices, preferences, Markov-process parameters, a borrowing limit moved below and above the bottom of the grid (off-grid policies), a directly '
                      'shocked Markov matrix, distinct initial steady state: policies, value derivatives, outputs, D, Dbeg and aggregates vs an independent numpy recursion; '
                      'stage-block rendition vs the backward-function block incl. pulses that are zero at early dates; steady-state argument untouched')
 
